@@ -16,8 +16,9 @@ import (
 )
 
 var VfHarnesses = map[string]func(){
-	"VerifC16Protos":    VerifC16Protos,
-	"VerifC14ArbitraryAlpn": VerifC14ArbitraryAlpn,
+	"VerifC16Protos":         VerifC16Protos,
+	"VerifC14ArbitraryAlpn":  VerifC14ArbitraryAlpn,
+	"VerifC14ArbitraryAlpn4": VerifC14ArbitraryAlpn4,
 }
 
 // C16: the protocol list reported for a connection is the offered list minus
@@ -62,6 +63,11 @@ func (vfListener) Addr() net.Addr            { return nil }
 
 var errStub = errors.New("stubbed out")
 
+var vfAlpnEntries = 3
+
+// VerifC14ArbitraryAlpn4: four arbitrary entries (thorough tier).
+func VerifC14ArbitraryAlpn4() { vfAlpnEntries = 4; VerifC14ArbitraryAlpn() }
+
 func VerifC14ArbitraryAlpn() {
 	l, err := NewInterceptingListener(&InterceptingListenerConfiguration{
 		Context:              context.Background(),
@@ -76,7 +82,10 @@ func VerifC14ArbitraryAlpn() {
 	})
 	vf.Assert("listener-built", err == nil)
 	var ci ClientInfo
-	protos := []string{vf.String("p", 48), vf.String("p", 48), vf.String("p", 48)}
+	var protos []string
+	for i := 0; i < vfAlpnEntries; i++ {
+		protos = append(protos, vf.String("p", 48))
+	}
 	_, _ = l.getTlsConfigForClient(&ci)(&tls.ClientHelloInfo{SupportedProtos: protos})
 	vf.Reach("end")
 }
